@@ -148,10 +148,11 @@ Section TwoSeries.
     { intros b. apply (ts_run_rel (R := pair_view)); try reflexivity; [| |exact HZ]; cbn [f_pre f_post csum_feat].
       - intros s p q H. apply csum_pre_view. exact H.
       - intros s p q H. apply csum_post_view. exact H. }
-    unfold ts_run2, rolling2_apply_to, rolling2_apply_default.
-    rewrite (Forall2_len HX), (Forall2_len HY). destruct body.
-    - destruct (length ys' <? length xs'); [reflexivity|]. exact (Hrun true).
-    - exact (Hrun false).
+    assert (Hbw : bad_window w xs = bad_window w xs') by (unfold bad_window; rewrite (Forall2_len HX); reflexivity).
+    unfold ts_run2. destruct body.
+    - unfold rolling2_apply_to. rewrite (Forall2_len HX), (Forall2_len HY).
+      destruct (length ys' <? length xs'); [reflexivity|]. exact (Hrun true).
+    - rewrite !rolling2_apply_default_unfold, Hbw. destruct (bad_window w xs'); [reflexivity|]. exact (Hrun false).
   Qed.
 End TwoSeries.
 
@@ -388,7 +389,8 @@ Section ResidFamily.
     ts_vregx_resid (D1 := D1) (D2 := D2) k body w mp xs ys = ts_vregx_resid (D1 := E1) (D2 := E2) k body w mp xs' ys'.
   Proof.
     intros HX HY. pose proof (Forall2_combine HX HY) as HZ. fold (pair_view D1 D2 E1 E2) in HZ.
-    unfold ts_vregx_resid, rolling2_apply_idx_to, rolling2_apply_idx_default.
+    assert (Hbw : bad_window w xs = bad_window w xs') by (unfold bad_window; rewrite (Forall2_len HX); reflexivity).
+    unfold ts_vregx_resid. cbv zeta. rewrite !rolling2_apply_idx_default_unfold, Hbw. unfold rolling2_apply_idx_to.
     rewrite (Forall2_len HX), (Forall2_len HY).
     set (zs := combine xs ys) in *. set (zs' := combine xs' ys') in *.
     assert (Hcb : forall s st e p q, PV p q ->
@@ -403,7 +405,8 @@ Section ResidFamily.
         f_equal. apply (map_rel (R := PV)); [intros a b Hab; apply resid_of_view; exact Hab|].
         apply Forall2_seg. exact HZ. }
     pose proof (idx_plain_rel (R := PV) _ _ Hcb w body csum0 HZ) as Hrun.
-    destruct body; [destruct (length ys' <? length xs'); [reflexivity|]|]; exact Hrun.
+    destruct body; [destruct (length ys' <? length xs'); [reflexivity|]|destruct (bad_window w xs'); [reflexivity|]];
+      exact Hrun.
   Qed.
 End ResidFamily.
 
